@@ -223,7 +223,15 @@ def shard_main(shard, nshards, tier, scale):
         npos = draw(st.lists(st.integers(0, len(ns)), min_size=1, max_size=2))
         kinds = [draw(st.integers(0, 2)) for _ in npos]
         L = sum(len(pool[n]) for n in ns) + 40 * len(npos)
-        cuts = sorted(set(draw(st.lists(st.integers(1, L), max_size=8))))
+        how = draw(st.sampled_from(["random", "random", "bytewise", "inside-garbage"]))
+        if how == "bytewise":
+            cuts = list(range(1, L))
+        else:
+            cuts = sorted(set(draw(st.lists(st.integers(1, L), max_size=8))))
+            if how == "inside-garbage":
+                # cut inside the first garbage frame (after its header) and shortly after its end
+                start = sum(len(pool[n]) for n in ns[:min(npos)])
+                cuts = sorted(set(cuts + [start + draw(st.integers(20, 31)), start + 32 + draw(st.integers(0, 19))]))
         return {"msgs": ns, "garbage_at": npos, "garbage_kind": kinds, "cuts": cuts, "kind": "garbage"}
 
     def gbody(case):
